@@ -161,10 +161,12 @@ class World:
         self.backlog.append(m)
         self.received_log[m.idx] = []
 
-    def _send(self, m: MMod, frame: bytes, unit: dict):
+    def _send(self, m: MMod, frame: bytes, unit: dict, seg: int = 0):
         if m.client_closed:
             raise HarnessError("send on a closed client")
-        m.conn.send(frame)
+        m.conn.send(frame, seg)
+        if seg:
+            self.stats["segmented-frames"] += 1
         m.queue.append(unit)
 
     def hdr(self, m, msg_type, payload=b"", **kw):
@@ -191,7 +193,7 @@ class World:
     def op_sub(self, op):
         m = self._mod(op)
         self._send(m, self.hdr(m, self.SUBK[op["kind"]], P.SUBSCRIBE.pack(op["type"])),
-                   dict(kind="sub", sk=op["kind"], type=op["type"]))
+                   dict(kind="sub", sk=op["kind"], type=op["type"]), op.get("seg", 0))
 
     def op_pub(self, op):
         m = self._mod(op)
@@ -205,7 +207,7 @@ class World:
         unit = dict(kind="pub", c=m.idx, seq=seq, type=op["type"], dm=op["dm"], dh=op["dh"], src=src,
                     sh=op.get("sh", 0), size=op["size"], payload=payload)
         self.pubs[seq] = unit
-        self._send(m, fr, unit)
+        self._send(m, fr, unit, op.get("seg", 0))
 
     def op_ready(self, op):
         m = self._mod(op)
